@@ -1,0 +1,13 @@
+//go:build verif
+
+package executor
+
+import ds "github.com/ipfs/go-datastore"
+
+// VerifNewKVExecutor builds a KVExecutor on an injected datastore (used by the /verif conformance harness).
+func VerifNewKVExecutor(db ds.Batching) *KVExecutor {
+	return &KVExecutor{db: db, txChan: make(chan []byte, txChannelBufferSize)}
+}
+
+// VerifClose closes the underlying datastore so that it can be reopened.
+func (k *KVExecutor) VerifClose() error { return k.db.Close() }
